@@ -123,6 +123,31 @@ pub(crate) mod verif_kani {
         kani::cover!(m < 0);
     }
 
+    /// More than 63 buckets (65, fixed bounds 0,10,..,640), arbitrary counters: an insert into ANY bucket - in
+    /// particular bucket 64, which shares dirty bit 63 - keeps the mirror invariant, so the next publish copies it.
+    /// (The fully symbolic n65 harness is thorough-only: symbolic bounds make the 65-way search expensive.)
+    #[kani::proof]
+    #[kani::unwind(68)]
+    fn local_insert_mirror_invariant_n65_fixed_bounds() {
+        const N: usize = 65;
+        let mut v: Vec<Magnitude> = Vec::with_capacity(N);
+        let mut i = 0;
+        while i < N {
+            v.push((i as Magnitude) * 10);
+            i += 1;
+        }
+        let mags: &'static [Magnitude] = Box::leak(v.into_boxed_slice());
+        let local = any_local::<N>(mags);
+        let sync = any_sync::<N>(mags);
+        kani::assume(mirror_inv::<N>(&local, &sync) && dirty_ok::<N>(&local));
+        let m: Magnitude = kani::any();
+        let cnt: usize = kani::any();
+        local.insert(m, cnt);
+        assert!(mirror_inv::<N>(&local, &sync), "C16.insert_preserves_mirror_invariant (incl. buckets >= 63)");
+        kani::cover!(m > 630 && m <= 640 && cnt > 0);
+        kani::cover!(m > 620 && m <= 630 && cnt > 0);
+    }
+
     fn sync_insert_contract<const N: usize>() {
         let mags = any_magnitudes::<N>();
         let sync = any_sync::<N>(mags);
